@@ -506,7 +506,7 @@ def _wire_key(iface, call):
 
 def cases(prop, tier, seed):
   global TRACE_CHUNK
-  TRACE_CHUNK = 250 if tier == 'quick' else 1500
+  TRACE_CHUNK = 450 if tier == 'quick' else 1500
   rng = random.Random(7919 * int(seed) + 14)
   nb = 110 if tier == 'quick' else 2000
   per = 10
